@@ -7,7 +7,7 @@ def CFG(R, FZ):
         "C05": dict(pkg="c05", level="exploration", runs=[R(shards=(8, 16))]),
         "C15": dict(pkg="c15", level="exploration", runs=[R(shards=(4, 16))]),
         "C16": dict(pkg="c16", level="exploration", runs=[R(shards=(4, 16))]),
-        "C17": dict(pkg="c17", level="exploration", runs=[R(shards=(4, 16))]),
+        "C17": dict(pkg="c17", level="exploration", runs=[R(shards=(4, 16), timeout=(300, 3000)), FZ("FuzzParse", seconds=90)]),
         "C18": dict(pkg="c18", level="exploration", runs=[R(name="race", race=True, shards=(4, 16))]),
         "C19": dict(pkg="c19", level="exploration", runs=[R(shards=(4, 16))]),
     }
